@@ -656,7 +656,13 @@ fn gen_info(rng: &mut Rng) -> String {
 }
 
 pub fn generate(thorough: bool, rng: &mut Rng, ops: &mut Vec<String>, stats: &mut Stats) {
-    let (n_plan, n_info, n_hist) = if thorough { (12_000, 4000, 260) } else { (1200, 400, 22) };
+    let (n_plan, n_info, n_hist) = if thorough { (12_000, 4000, 1500) } else { (1200, 400, 64) };
+    // the real histories come first: `check` examines the first disagreements it meets, and a failing history is a
+    // failing input of the property (a differing plan observation is only a model/implementation disagreement)
+    for _ in 0..n_hist {
+        ops.push(hist::gen_hist(rng, stats, thorough));
+        stats.hit("op.hist");
+    }
     for _ in 0..n_info {
         ops.push(gen_info(rng));
         stats.hit("op.info");
@@ -664,10 +670,6 @@ pub fn generate(thorough: bool, rng: &mut Rng, ops: &mut Vec<String>, stats: &mu
     for i in 0..n_plan {
         ops.push(gen_plan(rng, stats, i % 5 == 0));
         stats.hit("op.plan");
-    }
-    for _ in 0..n_hist {
-        ops.push(hist::gen_hist(rng, stats, thorough));
-        stats.hit("op.hist");
     }
 }
 
